@@ -1,10 +1,27 @@
 //! C12 — power loss cannot tear state: log synced before apply, data flushed before log reuse.
 
+use crate::core::*;
 use crate::crashmc::CrashCfg;
 use crate::props::c02::*;
 use crate::report::*;
 use crate::search::*;
 use serde_json::json;
+
+/// uniform keys with the zero salt (identity hashing): entries in the first, the last and a middle chunk of the
+/// index file, and in the last page of the file (the index is flushed by byte range)
+pub fn index_edges_family() -> (Config, Vec<Tx>, Tx) {
+	let mut spec = ColSpec::hash();
+	spec.uniform = true;
+	let mut cfg = Config::new(vec![spec]);
+	cfg.salt = 0;
+	let pk = crate::props::c09::page_key;
+	let alpha: Vec<Tx> = vec![
+		vec![(0, Op::Set(pk(0xffff, 1), B::pat(8, 1))), (0, Op::Set(pk(0x0000, 2), B::pat(28, 2)))],
+		vec![(0, Op::Set(pk(0xffe1, 3), B::pat(8, 3))), (0, Op::Set(pk(0x8000, 4), B::pat(28, 4))), (0, Op::Del(pk(0xffff, 1)))],
+	];
+	let suffix: Tx = vec![(0, Op::Set(pk(0xfffe, 9), B::pat(8, 9)))];
+	(cfg, alpha, suffix)
+}
 
 pub fn scenarios(tier: &str) -> Vec<Scenario> {
 	let pl = |torn: u8, full: usize| CrashCfg { torn, recovery_depth: 1, power_loss: true, max_full_subsets: full, ..Default::default() };
@@ -15,11 +32,13 @@ pub fn scenarios(tier: &str) -> Vec<Scenario> {
 			scenario("power-loss/hash+btree/n2", kv_family(), 2, 1, pl(1, 10), false),
 			scenario("power-loss/hash/n2-every-tail-length", small_family(), 2, 0, pl(2, 10), false),
 			scenario("power-loss/rc+tree/n2", rc_tree_family(), 2, 0, pl(1, 8), true),
+			scenario("power-loss/index-first-and-last-chunks/n2-x1", index_edges_family(), 2, 1, pl(1, 10), false),
 		]
 	} else {
 		vec![
 			scenario("power-loss/hash/n2", small_family(), 2, 1, pl(1, 8), false),
 			scenario("power-loss/hash+btree/n1", kv_family(), 1, 1, pl(1, 8), false),
+			scenario("power-loss/index-first-and-last-chunks/n2", index_edges_family(), 2, 0, pl(0, 8), false),
 		]
 	}
 }
